@@ -4,6 +4,4 @@ open SamVerif.Lexer
 #print axioms scan_step_progress
 #print axioms rawLoop_fuel_irrelevant
 #print axioms scan_progress
-#print axioms scan_total_counterexample
-#print axioms scan_total_partial
-#print axioms scan_panic_only_empty_doc
+#print axioms scan_total
